@@ -17,6 +17,7 @@ from __future__ import annotations
 import ast
 from dataclasses import dataclass
 
+from .dom import canon_fact
 from .paths import BASE, Config, probe
 from .seqrules import path_infos
 
@@ -92,13 +93,19 @@ def consume_paths(ctx, entry, mode: str, path_cap: int = 30000) -> tuple[list, i
             if e.kind != "guard":
                 continue
             raw = str(e.get("raw") or e.get("text"))
-            lit = raw if e.get("truth") else "!" + raw
+            # canonical polarity (sa/dom.py): `x != y` decided True is the fact `!x == y`, whichever way the source spells it
+            try:
+                atoms = canon_fact(ast.parse(raw, mode="eval").body, bool(e.get("truth")))
+            except SyntaxError:
+                atoms = [(raw, bool(e.get("truth")))]
             fn = fn_of(e.site)
-            facts.add(lit)
-            if fn:
-                facts.add(f"{fn}::{lit}")
-            if lit not in ordered:
-                ordered.append(lit)
+            for text, truth in atoms:
+                lit = text if truth else "!" + text
+                facts.add(lit)
+                if fn:
+                    facts.add(f"{fn}::{lit}")
+                if lit not in ordered:
+                    ordered.append(lit)
             last_site = e.site
         key = (pi.shape, frozenset(facts))
         if key in seen:
@@ -108,9 +115,25 @@ def consume_paths(ctx, entry, mode: str, path_cap: int = 30000) -> tuple[list, i
     return out, len(res.paths)
 
 
+def canon_literal(lit: str) -> list:
+    """table fact ('test', '!test', 'fn::!test') -> canonical literal(s) in the same notation"""
+    prefix = ""
+    if "::" in lit:
+        prefix, lit = lit.split("::", 1)
+        prefix += "::"
+    truth = not lit.startswith("!")
+    text = lit[1:] if not truth else lit
+    try:
+        atoms = canon_fact(ast.parse(text, mode="eval").body, truth)
+    except SyntaxError:
+        atoms = [(text, truth)]
+    return [prefix + (t if tr else "!" + t) for t, tr in atoms]
+
+
 def justify(cp: ConsumePath, entries: list) -> tuple | None:
-    """first table entry whose facts all hold on the path"""
+    """first table entry whose facts (in canonical polarity) all hold on the path"""
     for facts, reason in entries:
-        if all(f in cp.facts for f in facts):
+        want = [c for f in facts for c in canon_literal(f)]
+        if all(f in cp.facts for f in want):
             return facts, reason
     return None
